@@ -94,11 +94,13 @@ pub struct ExecReport {
     pub panic: Option<String>,
 }
 
-type Body = Arc<dyn Fn(usize) + Send + Sync + 'static>;
+pub type Body = Arc<dyn Fn(usize) + Send + Sync + 'static>;
 
 struct Job {
     specs: Vec<SchedSpec>,
     body: Body,
+    /// called on the server thread after every execution, also one that died of a panic
+    after: Option<Body>,
     reply: mpsc::Sender<Vec<ExecReport>>,
 }
 
@@ -131,12 +133,23 @@ struct SimScheduler {
 impl SimScheduler {
     fn flush(&mut self) {
         if self.in_exec {
-            let mut sh = self.shared.lock().unwrap();
-            if let Some(a) = sh.active.as_mut() {
-                let idx = a.current;
-                a.reports[idx] = std::mem::take(&mut self.report);
+            let mut after: Option<(Body, usize)> = None;
+            {
+                let mut sh = self.shared.lock().unwrap();
+                if let Some(a) = sh.active.as_mut() {
+                    let idx = a.current;
+                    a.reports[idx] = std::mem::take(&mut self.report);
+                    if let Some(f) = &a.job.after {
+                        after = Some((f.clone(), idx));
+                    }
+                }
             }
             self.in_exec = false;
+            if !std::thread::panicking() {
+                if let Some((f, idx)) = after {
+                    f(idx);
+                }
+            }
         }
     }
 }
@@ -309,10 +322,19 @@ fn server(rx: mpsc::Receiver<Job>) {
         match r {
             Ok(_) => return, // new_execution returned None: client gone
             Err(msg) => {
-                let mut sh = shared.lock().unwrap();
-                if let Some(a) = sh.active.as_mut() {
-                    let idx = a.current;
-                    a.reports[idx].panic = Some(msg);
+                let mut after: Option<(Body, usize)> = None;
+                {
+                    let mut sh = shared.lock().unwrap();
+                    if let Some(a) = sh.active.as_mut() {
+                        let idx = a.current;
+                        a.reports[idx].panic = Some(msg);
+                        if let Some(f) = &a.job.after {
+                            after = Some((f.clone(), idx));
+                        }
+                    }
+                }
+                if let Some((f, idx)) = after {
+                    f(idx);
                 }
             }
         }
@@ -330,11 +352,19 @@ pub fn run_under<F>(specs: &[SchedSpec], body: F) -> Vec<ExecReport>
 where
     F: Fn(usize) + Send + Sync + 'static,
 {
+    run_under_with(specs, body, None)
+}
+
+/// `after(exec_index)` runs on the server thread once each execution is over — normally or by a panic.
+pub fn run_under_with<F>(specs: &[SchedSpec], body: F, after: Option<Body>) -> Vec<ExecReport>
+where
+    F: Fn(usize) + Send + Sync + 'static,
+{
     if specs.is_empty() {
         return vec![];
     }
     let (reply_tx, reply_rx) = mpsc::channel();
-    let mut job = Some(Job { specs: specs.to_vec(), body: Arc::new(body), reply: reply_tx });
+    let mut job = Some(Job { specs: specs.to_vec(), body: Arc::new(body), after, reply: reply_tx });
     for _attempt in 0..2 {
         let tx = SERVER.with(|s| {
             let mut s = s.borrow_mut();
